@@ -132,3 +132,90 @@ CORPUS += [
           '    @update\n    def up():\n      for p in range(2):\n        for e in range(3):\n          s.o[p*3+e] @= s.in_[p].ch[e] ^ s.in_[p].tag\n'
           '      s.x @= s.in_[1].sub[2].x + s.in_[s.sel].sub[0].x\n      s.g @= s.in_[1].grid[1][2] ^ s.in_[0].grid[0][1]\n      s.pk @= s.in_[1]\n'},
 ]
+
+# ---------------------------------------------------------------------------------------------
+# round 5: witnesses of F12 (translator face), F25, F10 variant struct-tmpvar (known) and of the repaired F29
+# ---------------------------------------------------------------------------------------------
+F12 = 'F12-implicit-arithmetic-width'
+F25 = 'F25-yosys-interface-containing-interface-list'
+_F25_EXPECT = ('syntax-invalid', 'undriven', 'output-mismatch', 'multi-driver')
+_IFCS = ('class Inner( Interface ):\n  def construct( s ):\n    s.msg = InPort( Bits4 )\n    s.ack = OutPort( Bits1 )\n\n'
+         'class Outer( Interface ):\n  def construct( s ):\n    s.val = InPort( Bits1 )\n    s.ch = [ Inner() for _ in range(3) ]\n\n')
+WITNESSES += [
+  {'label': F12 + ':witness', 'finding': F12, 'variant': None, 'expect': ('output-mismatch',), 'backends': ('verilog',), 'features': ['finding-stream'],
+   'cycles': [{'.a': 0, '.reset': 0}, {'.a': 4, '.reset': 0}],
+   'src': 'from pymtl3 import *\n'
+          'class Top( Component ):\n  def construct( s ):\n    s.a = InPort( Bits4 )\n    s.o = OutPort( Bits4 )\n'
+          '    @update\n    def up():\n      s.o @= 0\n      for i in range(4):\n        t = i + 1\n        if s.a == t:\n          s.o @= 1\n'},
+  {'label': F25 + ':top:witness', 'finding': F25, 'variant': 'top', 'expect': _F25_EXPECT, 'backends': ('yosys',), 'features': ['finding-stream'],
+   'cycles': [{'.ifc.val': 1, '.ifc.ch[0].msg': 1, '.ifc.ch[1].msg': 5, '.ifc.ch[2].msg': 8, '.reset': 0}],
+   'src': 'from pymtl3 import *\n' + _IFCS +
+          'class Top( Component ):\n  def construct( s ):\n    s.ifc = Outer()\n    s.o = OutPort( Bits4 )\n'
+          '    @update\n    def up():\n      s.o @= s.ifc.ch[1].msg ^ s.ifc.ch[2].msg\n'
+          '      for i in range(3):\n        s.ifc.ch[i].ack @= s.ifc.val & s.ifc.ch[i].msg[0]\n'},
+  {'label': F25 + ':subcomponent:witness', 'finding': F25, 'variant': 'subcomponent', 'expect': _F25_EXPECT, 'backends': ('yosys',), 'features': ['finding-stream'],
+   'cycles': [{'.a': 9, '.reset': 0}],
+   'src': 'from pymtl3 import *\n' + _IFCS +
+          'class Sub( Component ):\n  def construct( s ):\n    s.ifc = Outer()\n    s.o = OutPort( Bits4 )\n'
+          '    @update\n    def sb():\n      s.o @= s.ifc.ch[1].msg\n      for i in range(3):\n        s.ifc.ch[i].ack @= s.ifc.val\n\n'
+          'class Top( Component ):\n  def construct( s ):\n    s.a = InPort( Bits4 )\n    s.o = OutPort( Bits4 )\n    s.c = Sub()\n'
+          '    s.c.ifc.val //= 1\n    for k in range(3):\n      s.c.ifc.ch[k].msg //= s.a\n    s.o //= s.c.o\n'},
+  {'label': F10 + ':struct-tmpvar:witness', 'finding': F10, 'variant': 'struct-tmpvar', 'expect': _F10_EXPECT + ('syntax-invalid',), 'backends': ('yosys',),
+   'features': ['finding-stream'],
+   'cycles': [{'.in_': 0x1e, '.reset': 0}],
+   'src': 'from pymtl3 import *\n' + _FL +
+          'class Top( Component ):\n  def construct( s ):\n    s.in_ = InPort( Fl )\n    s.out = OutPort( Bits4 )\n    s.out2 = OutPort( Bits4 )\n'
+          '    @update\n    def up():\n      t = s.in_\n      s.out @= t.a\n      s.out2 @= t.b + 1\n'},
+]
+CORPUS += [
+  {'label': 'corpus:fixed:F29-tmpvar-part-write-nonblocking-in-update-ff', 'backends': ('verilog', 'yosys'), 'features': ['corpus', 'fixed-defect-shape'],
+   'cycles': [{'.a': 0, '.b': 0xa3, '.reset': 0}, {'.a': 0x12, '.b': 0x4f, '.reset': 0}],
+   'src': 'from pymtl3 import *\n'          # repaired by fix: commit 662dede
+          'class Top( Component ):\n  def construct( s ):\n    s.a = InPort( Bits8 )\n    s.b = InPort( Bits8 )\n    s.r = OutPort( Bits8 )\n'
+          '    @update_ff\n    def ff():\n      t = s.a | s.b\n      t[0:4] = s.b[4:8]\n      s.r <<= t\n'},
+]
+
+CORPUS += [
+  {'label': 'corpus:fixed:F30-yosys-index-or-field-of-temporary', 'backends': ('verilog', 'yosys'), 'features': ['corpus', 'fixed-defect-shape'],
+   'src': 'from pymtl3 import *\n'          # repaired by fix: commit 552251d (the struct-field write of a struct temporary stays F10 in yosys: not here)
+          'class Top( Component ):\n  def construct( s ):\n    s.a = InPort( Bits8 )\n    s.b = InPort( Bits8 )\n    s.sel = InPort( Bits3 )\n'
+          '    s.r = OutPort( Bits8 )\n    s.r2 = OutPort( Bits8 )\n    s.r3 = OutPort( Bits1 )\n'
+          '    @update_ff\n    def ff():\n      u = s.a ^ s.b\n      u[7] = s.b[0]\n      u[0:2] = s.a[6:8]\n      s.r <<= u\n'
+          '    @update\n    def cb():\n      v = s.a + s.b\n      v[2:6] = s.b[0:4]\n      if s.a[0]:\n        v[0] = s.b[7]\n'
+          '      s.r2 @= v\n      s.r3 @= v[s.sel] ^ v[3]\n'},
+]
+
+CORPUS += [
+  {'label': 'corpus:chained-assignment-to-temporaries', 'backends': ('verilog', 'yosys'), 'features': ['corpus'],
+   'src': 'from pymtl3 import *\n'
+          'class Top( Component ):\n  def construct( s ):\n    s.a = InPort( Bits8 )\n    s.b = InPort( Bits8 )\n'
+          '    s.o1 = OutPort( Bits8 )\n    s.o2 = OutPort( Bits8 )\n    s.o3 = OutPort( Bits8 )\n    s.r = OutPort( Bits8 )\n'
+          '    @update\n    def up():\n      t = s.a | 0\n      t = u = t + 1\n      s.o1 @= t\n      s.o2 @= u\n'
+          '      v = w = x = ( s.a ^ s.b )\n      v = x = v - s.b\n      s.o3 @= v + w + x\n'
+          '    @update_ff\n    def ff():\n      p = s.b | 0\n      p = q = p + s.a\n      s.r <<= p ^ ( q << 1 )\n'},
+]
+
+# ---------------------------------------------------------------------------------------------
+# round 6: F35 (known) and the witnesses of the repaired F31-F34 (eb8e8a7, 2d78ca6, de4f2c7, bce9656)
+# ---------------------------------------------------------------------------------------------
+F35 = 'F35-chained-assignment-sole-body-without-begin-end'
+WITNESSES += [
+  {'label': F35 + ':witness', 'finding': F35, 'variant': 'else', 'expect': ('output-mismatch', 'multi-driver', 'undriven'), 'backends': ('verilog', 'yosys'),
+   'features': ['finding-stream'],
+   'cycles': [{'.a': 30, '.b': 90, '.c': 1, '.reset': 0}, {'.a': 30, '.b': 90, '.c': 0, '.reset': 0}],
+   'src': 'from pymtl3 import *\n'
+          'class Top( Component ):\n  def construct( s ):\n    s.a = InPort( Bits8 )\n    s.b = InPort( Bits8 )\n    s.c = InPort( Bits1 )\n'
+          '    s.o5 = OutPort( Bits8 )\n    s.o6 = OutPort( Bits8 )\n'
+          '    @update\n    def up3():\n      t = s.a | 0\n      u = s.b | 0\n      if s.c:\n        t = s.b + 1\n      else:\n        t = u = s.a - s.b\n'
+          '      s.o5 @= t\n      for k in range(2):\n        t = u = u + 1\n      s.o6 @= t ^ u\n'},
+]
+CORPUS += [
+  {'label': 'corpus:fixed:F31-F34-chained-mirror-samewidth-folded-global', 'backends': ('verilog', 'yosys'), 'features': ['corpus', 'fixed-defect-shape'],
+   'src': 'from pymtl3 import *\ni = 5\n'
+          'class Top( Component ):\n  def construct( s ):\n    s.a = InPort( Bits8 )\n    s.b = InPort( Bits8 )\n'
+          '    s.o1 = OutPort( Bits8 )\n    s.o2 = OutPort( Bits8 )\n    s.o3 = OutPort( Bits1 )\n    s.o4 = OutPort( Bits8 )\n    s.o7 = OutPort( Bits8 )\n    s.o8 = OutPort( Bits8 )\n'
+          '    s.N = 3\n'
+          '    @update\n    def up1():\n      s.o1 @= s.a & zext( s.a | s.b, 8 )\n      s.o2 @= s.a ^ trunc( s.a + s.b, 8 ) ^ sext( s.b - s.a, 8 )\n      s.o3 @= s.a[2*s.N]\n'
+          '    @update\n    def up2():\n      s.o4 @= 0\n      for i in range(8):\n        s.o4[i] @= s.a[i] & s.b[7-i]\n'
+          '    @update\n    def up4():\n      v = s.b | 0\n      w = v = v + 1\n      s.o7 @= w\n      s.o8 @= v + (2*s.N)\n'},
+]
